@@ -455,3 +455,41 @@ def model_output(case, ob):
     t = render(case, ob)
     return {'agree(tree,book) per update': common.coq_eval('STRUCT', IMPORTS, 'diagnose %s' % t)[:600],
             'model': common.coq_eval('STRUCT', IMPORTS, 'model_out %s' % t)[:6000]}
+
+
+def oracle_upd(c, ob):
+    """C01 (never lost): a plain value update carried by the same update as structural keys reaches the child it
+    names - s.n grows by exactly the given amount - when that child exists after the structural keys of the update
+    (existing before and untouched, or added / generated by the same update) and is not deleted by it"""
+    def leaf(tree, path):
+        d = tree
+        for k in path:
+            if d[0] != 'dir' or k not in d[2]:
+                return None
+            d = d[2][k]
+        return d[2] if d[0] == 'var' else None
+    prev = None
+    for entry, o in zip(c['hist'], ob['obs']):
+        if 'err' in o:
+            break
+        col, ops = entry[0], entry[1]
+        for op in ops:
+            if op[0] != 'upd':
+                continue
+            k, z = op[1], op[2]
+            others = [x for x in ops if x is not op and x[0] != 'upd' and
+                      (x[1] == k or (x[0] == 'divide' and k in [d[0] for d in x[2]]))]
+            now = leaf(o['tree'], (col, k, 's', 'n'))
+            if not others:
+                before = leaf(prev, (col, k, 's', 'n')) if prev is not None else None
+                if before is not None and now is not None and now != before + z:
+                    return [('update %r: %s/%s/s/n went from %r to %r, the update adds %r' % (ops, col, k, before, now, z),
+                             'value-update-lost')]
+            elif len(others) == 1 and others[0][0] in ('add', 'generate'):
+                st = others[0][2] if others[0][0] == 'add' else others[0][3]
+                n0 = (st.get('s') or {}).get('n', 0) if isinstance(st, dict) else 0
+                if now is not None and now != n0 + z:
+                    return [('update %r: the child %s is created with s.n = %r and updated by %r in the same update, '
+                             'it holds %r' % (ops, k, n0, z, now), 'value-update-lost')]
+        prev = o['tree']
+    return []
